@@ -115,16 +115,22 @@ Qed.
 End ListFs.
 
 (* ---- the mirror theorem for the executable instance (Unix destination) ---- *)
+(* the domain outside known finding F7: every source link text is well-formed UTF-8 *)
+Definition links_utf8 (S : fs) : Prop := forall p t k, fget S p = Some (NLink t k) -> utf8_valid t = true.
+Lemma links_utf8_roundtrip S : links_utf8 S -> links_roundtrip normalize_unix Unix S.
+Proof. intros H p t k E. apply normalize_unix_idem. apply lossy_valid. eapply H; eauto. Qed.
+
 Theorem run_top_mirror cfg S D a ans bits ex ft :
-  unique_keys S -> wf_fs S -> unique_keys D -> wf_fs D -> src_times_set S ->
+  unique_keys S -> wf_fs S -> unique_keys D -> wf_fs D -> src_times_set S -> links_utf8 S ->
   let r := run_top cfg S D a ans bits ex ft in
   r_ok r = true -> r_skipped r = [] -> r_root_skipped r = false -> cf_dry cfg = false ->
   ExecProofs.no_through (d_events (r_dest r)) -> cf_fl cfg = Unix ->
-  mirror now_far (excl_incl ex) normalize_unix Unix S D (d_fs (r_dest r)).
+  mirror now_far (excl_incl ex) normalize_unix (cf_diff cfg) Unix S D (d_fs (r_dest r)).
 Proof.
-  intros HuS HwS HuD HwD Hts. cbv zeta. unfold run_top. intros Hok Hsk Hrs Hdry Hnt Hfl.
-  eapply (mirror_theorem now_far (excl_incl ex) normalize_unix (chunk_every 4096) (chunk_every_ok 4096) Unix normalize_unix_idem
-            cfg S (mkD D a 0 None [])); eauto.
-  - apply list_fs_valid; assumption.
-  - apply (list_fs_valid now_far (excl_incl ex) normalize_unix D); assumption.
+  intros HuS HwS HuD HwD Hts Hlk. cbv zeta. unfold run_top. intros Hok Hsk Hrs Hdry Hnt Hfl.
+  exact (mirror_theorem now_far (excl_incl ex) normalize_unix (chunk_every 4096) (chunk_every_ok 4096) Unix
+           cfg S (mkD D a 0 None []) ans bits _ _ ft
+           (list_fs_valid now_far (excl_incl ex) normalize_unix S HuS HwS)
+           (list_fs_valid now_far (excl_incl ex) normalize_unix D HuD HwD)
+           HwS Hts (links_utf8_roundtrip S Hlk) eq_refl Hok Hsk Hrs Hdry Hnt Hfl).
 Qed.
